@@ -100,6 +100,7 @@ func c03admTriples(set *cq.Set, in *cq.Interner, r *rand.Rand, n int, real, mark
 			obs := adm.Run(&s.Cfg, real, &s.Req, &s.World)
 			if obs.Panic == "" && obs.Resp != nil {
 				allowed[k], evaluated[k] = obs.Resp.Allowed, true
+				s.Tags = append(s.Tags, fmt.Sprintf("c03adm:%s:allowed=%v", lvl, obs.Resp.Allowed)) // how often the premise of the ordering is met
 			}
 			c, fails := admCase(in, &s, real, marker)
 			set.GoFails = append(set.GoFails, fails...)
